@@ -1,6 +1,7 @@
 """C08 — script building, tokenising, number codec and classification predicates."""
 import array
 import itertools
+import re
 import os
 import random
 import subprocess
@@ -94,6 +95,20 @@ CONTAINERS = (
 )
 
 
+def toks_ood(toks):
+    """token lists with an element that is not an opcode, an integer or a byte string are outside the statement"""
+    return any(t[:2] in ('u:', 'x:') for t in (toks.split(',') if isinstance(toks, str) else toks))
+
+
+def vch_minimal(b):
+    """Core's minimal-encoding rule: the codec clause of the property is about minimal strings"""
+    if not b:
+        return True
+    if b[-1] & 0x7f:
+        return True
+    return len(b) > 1 and bool(b[-2] & 0x80)
+
+
 def random_fixed(seed=0):
     """shard-independent generator for the content of deterministic enumerations: the same list, in the same
     order, in every shard (only such lists are partitioned by index)"""
@@ -144,7 +159,18 @@ class C08(Prop):
                     'indexing as modelled (validated by the correspondence run)']
     assumptions = ['CScriptOp tokens are the 256 instances of the opcode table (values 0..255); the read-back laws '
                    'are claimed for opcode tokens 0x4f..0xff as in the property text',
-                   'is_unspendable is not named by the property: tied to "first byte is OP_RETURN" only']
+                   'compared domain = what the statement covers: sequences of opcodes 0..255, integers (bool and int '
+                   'subclasses included), byte strings (bytes, bytearray and their subclasses incl. nested CScript) through '
+                   'every iterable kind; all byte strings as scripts; integers and MINIMAL strings for the number codec',
+                   'run but tagged out-of-domain (observation only, never a violation): elements of other types '
+                   '(buffer-protocol objects spliced raw, str/None/... -> TypeError), CScriptOp(n) for n outside 0..255 and '
+                   'the growth of the private instance table, encode_op_n outside 0..16, the internal MPI helper mpi2bn, '
+                   'vch2bn on non-minimal strings',
+                   'not compared (the statement does not constrain them; theorems about the model remain): the payload '
+                   'carried by the truncated-push error (family only), is_unspendable, witness_version of a script that is '
+                   'not a witness program, decode_op_n on opcodes that are not OP_N',
+                   'the number codec lives in the private module bitcoin.core._bignum: reached lazily inside guarded(), '
+                   'its absence makes those auxiliary cases unobservable, not a broken tie']
     rule = ('token sequences over every opcode 0x4f..0xff, integers at +-{0,1,16,17,127,128,255,256,2^31,2^63,'
             '2^100} +-1, byte-length edges 2^(8k-1), 2^(8k) and random to 600 bits, byte strings with lengths over '
             'the boundary pool to 65537 and mined literals; ALL byte strings of length <= 2 through raw iteration, '
@@ -156,15 +182,27 @@ class C08(Prop):
             'bytearray and alternating, and all must give the same CScript; the rebuild is taken straight from the '
             "script's own cooked iteration (iter/list/genexp/tuple/one-shot/map of the script) and from every "
             'container kind; script + token with bytes and bytearray operands on scripts made from bytes and from '
-            'bytearray; every byte-string input is also fed as bytearray; '
+            'bytearray; every byte-string input is also fed as bytearray; element kinds: bool, int subclass, nested '
+            'CScript, bytes/bytearray subclasses must build identical bytes; objects with history: every ordered pair '
+            '(and sampled triples) of 22 observers on ONE CScript object over 51 key shapes, both orders of the two '
+            'sigop modes on every script of <= 2 bytes, 7 construction routes with the parent observed first; '
+            'run out-of-domain (observations only): non-script element types, buffer-protocol elements, CScriptOp(n) '
+            'outside 0..255 and table growth, mpi2bn, non-minimal vch2bn, encode_op_n outside 0..16; iteration errors '
+            'are compared by family only; '
             'non-trivial = non-empty argument; distinct by canonical request line')
 
     # ------------------------------------------------------------------------------------------
     def setup(self):
         ensure_repo_on_path()
         import bitcoin.core.script as SC
+        self.SC = SC
+
+    @property
+    def BN(self):
+        """the number codec lives in a private module: reached lazily, inside guarded(), so that a tree without
+        it makes these auxiliary cases unobservable instead of breaking the tie"""
         import bitcoin.core._bignum as BN
-        self.SC, self.BN = SC, BN
+        return BN
 
     # ---- token text <-> Python objects ----------------------------------------------------------
     def tok_obj(self, t):
@@ -286,9 +324,9 @@ class C08(Prop):
         if o == 'repr':
             return guarded(lambda: '1' if isinstance(repr(s), str) and repr(s) == repr(SC.CScript(bytes(s))) else '0')
         if o == 'hash':
-            return guarded(lambda: '1' if hash(s) == hash(bytes(s)) else '0')
+            return guarded(lambda: '1' if hash(s) == hash(SC.CScript(bytes(s))) else '0')
         if o == 'eq':
-            return guarded(lambda: '1' if (s == bytes(s) and s == SC.CScript(bytes(s)) and not (s != bytes(s))) else '0')
+            return guarded(lambda: '1' if (s == SC.CScript(bytes(s)) and not (s != SC.CScript(bytes(s)))) else '0')
         if o == 'top2sh':
             def g():
                 import bitcoin.core
@@ -352,13 +390,9 @@ class C08(Prop):
         return first, None
 
     def iter_err_text(self, e):
-        """family of the exception; for the truncated-push error also the payload bytes it carries in
-        `.data` (what was present of the push: part of "reported, not mis-parsed")"""
-        t = ' err:' + exc_family(e)
-        if isinstance(e, self.SC.CScriptTruncatedPushDataError):
-            d = getattr(e, 'data', None)
-            t += ' trunc=' + (bytes(d).hex() if isinstance(d, (bytes, bytearray)) else 'nodata:%r' % (d,))
-        return t
+        """family of the exception only: the statement promises "an invalid-script error"; the payload the
+        truncated-push error carries (`.data`) is pinned for the model by a theorem, not compared here"""
+        return ' err:' + exc_family(e)
 
     def cooked_text(self, script, objs_out=None):
         toks, err = [], ''
@@ -609,8 +643,8 @@ class C08(Prop):
         singles += ['b:0', 'b:1'] + ['x:' + k for k in sorted(OTHER_KINDS)]
         singles += ['u:', 'u:51', 'u:00', 'u:ac0102', 'u:4c', 'u:05ab']   # buffer-protocol elements: spliced in raw
         for t in part(singles):
-            yield mk('c08.build', t, tag='build1')
-            yield mk('c08.add', rng.randbytes(rng.randrange(0, 3)).hex(), t, tag='add')
+            yield mk('c08.build', t, tag='build1', ood=toks_ood(t))
+            yield mk('c08.add', rng.randbytes(rng.randrange(0, 3)).hex(), t, tag='add', ood=toks_ood(t))
         for n in part(lens + list(range(0, 0x52))):
             d = self._data(rng, n)
             yield mk('c08.build', 'd:' + d.hex(), tag='build1')
@@ -631,7 +665,7 @@ class C08(Prop):
                 toks.insert(rng.randrange(len(toks) + 1), 'u:' + rng.randbytes(rng.randrange(0, 4)).hex())
             if j % 16 == 3:     # an element of a non-script type at a random position: TypeError
                 toks.insert(rng.randrange(len(toks) + 1), 'x:' + rng.choice(sorted(OTHER_KINDS)))
-            yield mk('c08.build', ','.join(toks), tag='buildseq')
+            yield mk('c08.build', ','.join(toks), tag='buildseq', ood=toks_ood(toks))
 
         # (c) scripts as byte strings
         det = self._sigop_scripts(rng, 0) + [s for s in self._shape_scripts(random_fixed(getattr(self, 'seed', 0)), 0)]
@@ -679,12 +713,12 @@ class C08(Prop):
         for n in part(range(256)):
             yield mk('c08.opn.dec', n, tag='opn')
         for n in part([z for z in range(-300, 301) if z != 256]):      # 256 grows the table: see opnewseq
-            yield mk('c08.opnew', n, tag='opnew')
+            yield mk('c08.opnew', n, tag='opnew', ood=not 0 <= n <= 255)     # the statement speaks of opcodes 0..255
         # CScriptOp(256) appends to the module-level table: run call sequences in a fresh interpreter each
         for seq in part(OPNEW_SEQS):
-            yield mk('c08.opnewseq', ','.join(str(z) for z in seq), tag='opnewseq')
+            yield mk('c08.opnewseq', ','.join(str(z) for z in seq), tag='opnewseq', ood=True)
         for z in part(list(range(-3, 21)) + [p for p in self.pool if abs(p) < 1 << 40]):
-            yield mk('c08.opn.enc', z, tag='opn')
+            yield mk('c08.opn.enc', z, tag='opn', ood=not 0 <= z <= 16)        # helper called outside its contract
         for j in range(share(4000 if big else 400)):
             n = rng.randrange(0, 9)
             body = rng.randbytes(n)
@@ -694,11 +728,11 @@ class C08(Prop):
             m = size.to_bytes(4, 'big') + body
             if rng.random() < 0.1:
                 m = m[:rng.randrange(0, 4)]
-            yield mk('c08.mpi2bn', m.hex(), tag='mpi')
+            yield mk('c08.mpi2bn', m.hex(), tag='mpi', ood=True)               # MPI is an internal route
         # vch2bn on arbitrary strings: every string of length <= 2, then random with 00/80 tails
         short = (bytes(t) for n in (0, 1, 2) for t in itertools.product(range(256), repeat=n))
         for s in part(short):
-            yield mk('c08.vch2bn', s.hex(), tag='vch')
+            yield mk('c08.vch2bn', s.hex(), tag='vch', ood=not vch_minimal(s))
         for j in range(share(nnum // 4)):
             n = rng.randrange(1, 12) if rng.random() < 0.8 else rng.randrange(12, 300)
             b = bytearray(rng.randbytes(n))
@@ -710,11 +744,11 @@ class C08(Prop):
                 b[-2] = rng.choice((0x00, 0x7f, 0x80, 0xff))
             elif r < 0.5:
                 b = bytearray(n - 1) + bytes([rng.choice((0x00, 0x80, 0x01, 0x81))])
-            yield mk('c08.vch2bn', bytes(b).hex(), tag='vch')
+            yield mk('c08.vch2bn', bytes(b).hex(), tag='vch', ood=not vch_minimal(bytes(b)))
 
     # ---- the real code ---------------------------------------------------------------------------------
     def impl(self, c):
-        SC, BN = self.SC, self.BN
+        SC = self.SC
         op, a = c['op'], c['args']
         if op == 'c08.build':
             def f():
@@ -861,20 +895,43 @@ class C08(Prop):
             return guarded(lambda: str(o.decode_op_n())) + ' ' + guarded(g)
         if op == 'c08.mpi2bn':
             def f():
-                v = BN.mpi2bn(bytes.fromhex(a[0]))
+                v = self.BN.mpi2bn(bytes.fromhex(a[0]))
                 return 'none' if v is None else str(v)
             return guarded(f)
         if op == 'c08.bn2vch':
-            return guarded(lambda: bytes(BN.bn2vch(int(a[0]))).hex())
+            return guarded(lambda: bytes(self.BN.bn2vch(int(a[0]))).hex())
         if op == 'c08.vch2bn':
             def f():
-                v = BN.vch2bn(bytes.fromhex(a[0]))
-                v2 = BN.vch2bn(bytearray.fromhex(a[0]))
+                v = self.BN.vch2bn(bytes.fromhex(a[0]))
+                v2 = self.BN.vch2bn(bytearray.fromhex(a[0]))
                 if v != v2:
                     return 'bytearray-input-mismatch %r %r' % (v, v2)
                 return 'none' if v is None else str(v)
             return guarded(f)
         raise ValueError(op)
+
+    def agree(self, c, io, mo):
+        """Equality, except for observables the statement does not constrain, which the model answers with the
+        placeholder `-`: is_unspendable (not named by the property) and witness_version of a script that is not a
+        witness program."""
+        if io == mo:
+            return True
+        op = c['op']
+        if op == 'c08.preds':
+            a, b = io.split(' '), mo.split(' ')
+            return len(a) == len(b) and all(x == y or y in ('wver=-', 'unsp=-') for x, y in zip(a, b))
+        if op == 'c08.opn.dec':
+            n = int(c['args'][0])
+            if n != 0 and not 0x51 <= n <= 0x60:        # decode_op_n outside its contract: only is_small_int counts
+                return io.split(' ')[-1] == mo.split(' ')[-1] and mo.split(' ')[-1] in ('0', '1')
+            return False
+        if op == 'c08.hist':
+            obs = c['args'][1].split(',')
+            a, b = io.split(' | '), mo.split(' | ')
+            if len(a) != len(obs) or len(b) != len(obs):
+                return False
+            return all(x == y or (o in ('unsp', 'wver') and y == '-') for o, x, y in zip(obs, a, b))
+        return False
 
     def nontrivial(self, c, io):
         return bool(c['args'][0]) and c['args'][0] not in ('0', '00')
